@@ -101,6 +101,20 @@ fn case<R: Ent + EucRing>(rng: &mut StdRng, t: &mut Tracer, st: &mut Stats, maxd
         Err(m) if machine && m.contains("overflow") => { st.outside += 1; }
         Err(m) => { t.emit(&json!({"op":"hom","res":"panic","panic":m,"ring":R::ring(),"type":R::tname(),"src":"complex","a":a})); st.events += 1; st.panics += 1; }
     }
+    // route 3: the same complex through compute_homology_at / compute_homology without coordinate maps (rank and torsion only)
+    let (m1, m2) = (s1.clone(), s2.clone());
+    let res = guarded(move || {
+        use yui_homology::ComputeHomology;
+        let c = GenericChainComplex::<R>::generate(0..=2, 1, |i| match i { 0 => m1.clone(), 1 => m2.clone(), _ => SpMat::zero((0, b)) });
+        let mid = c.compute_homology_at(1, false);
+        let all = c.compute_homology(false);
+        (mid.rank(), mid.tors().to_vec(), all[1].rank(), all[1].tors().to_vec())
+    });
+    match res {
+        Ok((rank, tors, rank2, tors2)) => { emit_hom(t, st, n, &s1, &s2, rank, &tors, None, "compute_homology_at(.., false)"); emit_hom(t, st, n, &s1, &s2, rank2, &tors2, None, "compute_homology(false)"); }
+        Err(m) if machine && m.contains("overflow") => { st.outside += 1; }
+        Err(m) => { t.emit(&json!({"op":"hom","res":"panic","panic":m,"ring":R::ring(),"type":R::tname(),"src":"complex-without-trans","a":a})); st.events += 1; st.panics += 1; }
+    }
 }
 
 pub fn record(a: &Args) {
